@@ -189,8 +189,37 @@ def inter_list_rule(ctx, MAX):
                     ctx.obligation(ok)
                     (ctx.ok if ok else ctx.violation)('C20.R5', 'C20.R5/inter_list/none-only-from-empty-step', fn.path, fn.site(), {'leaf_constraints': pc_text(o)}, cfg)
                 else:
-                    ctx.obligation(True)
-                    ctx.ok('C20.R5', 'C20.R5/inter_list/some-leaf', fn.path, fn.site(), None, cfg)
+                    # Some only when every element was folded in (exit at exhaustion of a[1..]) and with the accumulator
+                    t = ip.to_term(o.state, v[1][0])
+                    pos = [x for f in o.state.pc for x in T.subterms(f) if x[0] == 'var' and 'iter.pos@' in x[1]]
+                    ok = bool(pos) and ip.entails(o.state, le(n, T.mk_add(pos[0], I(1)))) and t[0] == 'var' and '@bb' in t[1]
+                    ctx.obligation(ok)
+                    (ctx.ok if ok else ctx.violation)('C20.R5', 'C20.R5/inter_list/some-only-after-every-element-was-intersected', fn.path, fn.site(), {'returned': T.show(t)[:120], 'leaf_constraints': pc_text(o)}, cfg)
+        # the fold itself: starts from a[0]; each step replaces the accumulator by inter(accumulator, a[pos+1])
+        heads = [h for h in ip.head_states if h[0] == fn.path]
+        backs = [b for b in ip.back_states if b[0] == fn.path]
+        okf = len(heads) == 1 and len(backs) >= 1
+        if okf:
+            _, head, hst, mapping, valid, entry = heads[0]
+            acc = None
+            for l, cell in enumerate(hst.frames[-1].cells):
+                if isinstance(cell.v, X.Sym) and cell.v.term[0] == 'var' and '@bb' in cell.v.term[1] and 'CharSet' in (cell.v.ty or ''):
+                    acc = (l, cell.v.term)
+            okf = acc is not None
+            if okf:
+                t0 = ip.to_term(entry, entry.frames[-1].cells[acc[0]].v)
+                ok0 = t0 == ('elem', a, I(0))
+                ctx.obligation(ok0)
+                (ctx.ok if ok0 else ctx.violation)('C20.R5', 'C20.R5/inter_list/starts-from-first-element', fn.path, fn.site(), {'initial': T.show(t0)[:120]}, cfg)
+                poss = [hv for hv, ev in mapping if T.TYPES.get(hv) == 'usize']
+                for (_, _, bst, bmap, bvalid, cur) in backs:
+                    tb = ip.to_term(bst, bst.frames[-1].cells[acc[0]].v)
+                    want = ('call', CS + '::inter', (acc[1], ('elem', a, T.mk_add(poss[0], I(1))))) if poss else None
+                    okb = want is not None and tb[0] == 'vfld' and tb[1] == want and tb[2] == 'Some' and ip.entails(bst, eq(cur.get(poss[0], poss[0]), T.mk_add(poss[0], I(1))))
+                    ctx.obligation(okb)
+                    (ctx.ok if okb else ctx.violation)('C20.R5', 'C20.R5/inter_list/step-is-inter-of-accumulator-and-next-element', fn.path, fn.site(), {'accumulator_after_step': T.show(tb)[:200]}, cfg)
+        ctx.obligation(okf)
+        (ctx.ok if okf else ctx.violation)('C20.R5', 'C20.R5/inter_list/fold-shape', fn.path, fn.site(), {'heads': len(heads), 'back_edges': len(backs)}, cfg)
         for flag, role in ((seen_empty, 'empty-case-present'), (seen_fold, 'fold-case-present')):
             ctx.obligation(flag)
             (ctx.ok if flag else ctx.violation)('C20.R5', 'C20.R5/inter_list/' + role, fn.path, fn.site(), None, cfg)
